@@ -162,11 +162,22 @@ func shortFunc(fn string) string { return strings.TrimPrefix(fn, "perkeep.org/")
 // classify returns "perkeep" (judged), "harness" or "third-party" and the site name of each access.
 func (b raceBlock) classify() (class string, sites []string, outer []string) {
 	anyPerkeepFrame, perkeepOwner, allHarnessOwners := false, false, len(b.Access) > 0
+	// callbackRace: every access is in the client's StatBlobs callback (statSink, deliberately
+	// unsynchronised: BlobStatter promises serial calls) - the store that called it is at fault
+	callbackRace := len(b.Access) > 0
+	for _, st := range b.Access {
+		if o := st.owner(); o == nil || !strings.Contains(o.Func, "main.(*statSink).") {
+			callbackRace = false
+		}
+	}
 	for _, st := range b.Access {
 		site := "?"
 		if f := st.innermostPerkeep(); f != nil {
 			anyPerkeepFrame = true
 			site = shortFunc(f.Func)
+			if callbackRace {
+				site = "stat-callback<-" + site
+			}
 		} else if o := st.owner(); o != nil {
 			site = o.Func
 		} else if len(st.Frames) > 0 {
@@ -193,6 +204,8 @@ func (b raceBlock) classify() (class string, sites []string, outer []string) {
 	sort.Strings(outer)
 	switch {
 	case perkeepOwner:
+		class = "perkeep"
+	case callbackRace && anyPerkeepFrame:
 		class = "perkeep"
 	case allHarnessOwners:
 		class = "harness"
